@@ -239,6 +239,9 @@ func c08WithMap(cfg string) string {
 // c08Check compiles src under cfg (a configuration with source map) and checks the map. steer: a
 // source of a known class is skipped, and in pretty configurations the generated-side checks
 // (class pretty-map) are left out.
+// c08Warm: the next checks reuse a Compiler that has already compiled something
+var c08Warm bool
+
 func c08Check(c *oracleCtx, src, cfg string, steer bool) {
 	cfg = c08WithMap(cfg)
 	input := map[string]any{"src": hexOf(src), "text": src, "cfg": cfg}
@@ -262,7 +265,16 @@ func c08Check(c *oracleCtx, src, cfg string, steer bool) {
 			}
 			return
 		}
-		res := compilerOf(cfg).Compile(prog)
+		comp := compilerOf(cfg)
+		if c08Warm {
+			// history: the same Compiler object has compiled another program before (a map belongs to one compilation)
+			if warm, werrs := oaParse("let warm = up(1)\nwarm++\n"); len(werrs) == 0 {
+				comp.Compile(warm)
+				input["warm"] = true
+				input["history"] = "the same Compiler compiled `let warm = up(1)⏎warm++` first"
+			}
+		}
+		res := comp.Compile(prog)
 		code := res.Code
 		input["output"] = oaClip(code, 400)
 		// class of a failure of a position-independent check / of a generated-side check
@@ -502,6 +514,10 @@ func oracleC08(c *oracleCtx) {
 						cfg = "cm"
 					}
 					c.count(cfg + "|" + src)
+					if w, ok := m["warm"].(bool); ok && w {
+						c08Warm = true
+						defer func() { c08Warm = false }()
+					}
 					c08Check(c, src, cfg, false)
 				}()
 			}
@@ -524,6 +540,8 @@ func oracleC08(c *oracleCtx) {
 
 	one := func(src string) {
 		c.count(src)
+		c08Warm = c.r.Intn(3) == 0
+		defer func() { c08Warm = false }()
 		c08Check(c, src, "cm", true)
 		if c.r.Intn(3) == 0 {
 			c08Check(c, src, c08PrettyCfg(c), true)
